@@ -17,7 +17,8 @@ Proof. repeat split; reflexivity. Qed.
 Lemma gen_fix_sites :
   go_unrevoke_mask = go_flag_revoke /\ go_flag_revoke = 128 /\ go_flag_ksk = 1 /\
   length go_autota_oldtag_via = 1%nat /\ length go_stage_oldtag_via = 1%nat /\ length go_bootstrap_oldtag_via = 1%nat /\
-  length go_presence_by = 1%nat /\ length go_newresolver_filter = 1%nat /\ length go_startup_reads_state = 1%nat.
+  length go_presence_by = 1%nat /\ length go_newresolver_filter = 1%nat /\ length go_startup_reads_state = 1%nat /\
+  length go_publish_skips_tombstoned = 1%nat.
 Proof. repeat split; reflexivity. Qed.
 
 Section Step.
